@@ -8,7 +8,7 @@ FUNCTIONS = ["LRUTrieNode.write", "LRUTrieNode.set_stem", "helpers.detailed_chun
              "LinkStore.add_links", "Traph.metrics", "LRUTrie.metrics", "Traph.count_links"]
 REQUIRED = ["growth:trie-blocks", "growth:link-blocks", "metrics:nb_pages", "metrics:nb_tail_nodes", "metrics:nb_links",
             "raw:unreferenced-block", "reach:tail1", "reach:tail2", "reach:exact-multiple", "reach:resubmission"]
-OUTSIDE = ["stems longer than 223 bytes (more than 3 blocks)", "more than 3 pool LRUs / 3 write requests"]
+OUTSIDE = ["long stems have symbolic bytes only next to the block boundaries and at both ends (sparse), except in the thorough level n1-full-bytes", "stems longer than 223 bytes (more than 3 blocks)", "more than 3 pool LRUs / 3 write requests"]
 
 PAYLOAD = 74   # LRU_TRIE_STEM_SIZE, re-read from the loaded module in the harness
 
@@ -24,8 +24,8 @@ def levels(tier):
             [[1], [1, 100], [1, 100]],
         ]
         return [
-            {"name": "n1", "pools": pools, "n": 1, "alphabet": alpha, "backends": ["file", "memory"], "links_batch": 2},
-            {"name": "n2", "pools": pools[:2], "n": 2, "alphabet": alpha, "backends": ["file"], "links_batch": 1},
+            {"name": "n1", "pools": pools, "sparse": True, "n": 1, "alphabet": alpha, "backends": ["file", "memory"], "links_batch": 2},
+            {"name": "n2", "pools": pools, "sparse": True, "n": 2, "alphabet": ["page", "links", "we"], "backends": ["file"], "links_batch": 1},
         ]
     pools = [
         [[74], [74, 1], [1]],
@@ -36,9 +36,10 @@ def levels(tier):
         [[148], [148], [148, 74]],
     ]
     return [
-        {"name": "n1", "pools": pools, "n": 1, "alphabet": alpha, "backends": ["file", "memory"], "links_batch": 2},
-        {"name": "n2", "pools": pools, "n": 2, "alphabet": alpha, "backends": ["file", "memory"], "links_batch": 2},
-        {"name": "n3", "pools": pools[:3], "n": 3, "alphabet": alpha, "backends": ["file"], "links_batch": 1},
+        {"name": "n1", "pools": pools, "sparse": True, "n": 1, "alphabet": alpha, "backends": ["file", "memory"], "links_batch": 2},
+        {"name": "n2", "pools": pools, "sparse": True, "n": 2, "alphabet": alpha, "backends": ["file", "memory"], "links_batch": 2},
+        {"name": "n1-full-bytes", "pools": pools[:3], "sparse": False, "n": 1, "alphabet": alpha, "backends": ["file"], "links_batch": 2},
+        {"name": "n3", "pools": pools[:3], "sparse": True, "n": 3, "alphabet": ["page", "links", "we"], "backends": ["file"], "links_batch": 1},
     ]
 
 
